@@ -73,7 +73,7 @@ func c09Registry(c *Ctx) {
 	c.R.Check(rule, "populated", "-", len(entries) >= 40, fmt.Sprintf("only %d builtins are registered by init", len(entries)))
 	// outside init: only Load
 	for _, f := range c.P.ModFuncs {
-		if isInitFn(f) {
+		if isInitFn(f) || c.initOnly(f) {
 			continue
 		}
 		instrs(f, func(b *ssa.BasicBlock, i int, in ssa.Instruction) {
@@ -213,4 +213,35 @@ func c09Deps(c *Ctx) {
 	c.R.Analysed["dependency_global_stores"] = findings
 	c.R.Check(rule, "third-party stores to package-level variables", "-", len(findings) == 0, strings.Join(findings, "; "))
 	c.R.Check(rule, "coverage", "-", ndep >= 50, fmt.Sprintf("only %d dependency functions were reachable: the scan did not enter the decimal library", ndep))
+}
+
+
+// initOnly: f is an unexported helper that runs during package initialisation only: it is never used as a value and
+// every call of it sits in an init function.
+func (c *Ctx) initOnly(f *ssa.Function) bool {
+	if f == nil || f.Parent() != nil || f.Object() == nil || f.Object().Exported() || f.Signature.Recv() != nil {
+		return false
+	}
+	n := 0
+	for _, g := range c.P.ModFuncs {
+		bad := false
+		instrs(g, func(b *ssa.BasicBlock, i int, in ssa.Instruction) {
+			var ops []*ssa.Value
+			for _, op := range in.Operands(ops) {
+				if *op != ssa.Value(f) {
+					continue
+				}
+				call, isCall := in.(*ssa.Call)
+				if !isCall || call.Call.Value != ssa.Value(f) || !isInitFn(g) {
+					bad = true
+				} else {
+					n++
+				}
+			}
+		})
+		if bad {
+			return false
+		}
+	}
+	return n > 0
 }
